@@ -170,44 +170,55 @@ func ruleCommitResultPropagated(c *core.Ctx) {
 
 // ruleBulkFailureRecorded: every failed element marks the bulk as failed — whatever the kind of error.
 func ruleBulkFailureRecorded(c *core.Ctx) {
-	d := fn(c, pkgBulk, "Bulker", "run")
-	if d == nil {
+	m := bulkWorkerModel(c)
+	if m == nil {
 		return
 	}
-	info := d.Pkg.TypesInfo
+	d := m.run
 	key := declKey(d)
-	var store *ast.CallExpr
-	ast.Inspect(d.Decl.Body, func(x ast.Node) bool {
-		if call, ok := x.(*ast.CallExpr); ok {
-			if se, ok := call.Fun.(*ast.SelectorExpr); ok && se.Sel.Name == "Store" && types.ExprString(se.X) == "hasError" && len(call.Args) == 1 && types.ExprString(call.Args[0]) == "true" {
-				store = call
-			}
-		}
-		return true
-	})
-	if store == nil {
-		c.Fail("DOM/bulk-worker", key+":failure-recorded", pos(c, d.Decl), "the worker never records a failure (hasError.Store(true))")
+	if m.flag == nil {
+		c.Unrecognised("DOM/bulk-worker", key+":failure-recorded", pos(c, d.Decl), "the shared failure flag (an atomic.Bool local of run) was not identified")
 		return
 	}
-	// innermost enclosing if: `err != nil`, and Store is a direct statement of its body
-	var inner *ast.IfStmt
-	ast.Inspect(d.Decl.Body, func(x ast.Node) bool {
-		if is, ok := x.(*ast.IfStmt); ok && is.Body.Pos() <= store.Pos() && store.End() <= is.Body.End() {
-			inner = is
-		}
-		return true
-	})
-	ok := false
-	if inner != nil && len(errorCondVars(info, inner.Cond)) > 0 {
-		if be, isB := ast.Unparen(inner.Cond).(*ast.BinaryExpr); isB && be.Op == token.NEQ {
-			for _, st := range inner.Body.List {
-				if es, isE := st.(*ast.ExprStmt); isE && es.X == ast.Expr(store) {
-					ok = true
+	type site struct {
+		env  *originEnv
+		call *ast.CallExpr
+	}
+	var stores []site
+	for _, e := range m.envs {
+		for _, call := range e.calls(named("Store")) {
+			if len(call.Args) == 1 && e.rootObj(recvExpr(call)) == m.flag {
+				if v, known := constBool(e.info, e.d.Decl.Body, call.Args[0]); known && v {
+					stores = append(stores, site{e, call})
 				}
 			}
 		}
 	}
-	c.Check(ok, "DOM/bulk-worker", key+":failure-recorded", pos(c, store), "hasError.Store(true) for every failed element (directly under `err != nil`)", "a failed element marks the bulk as failed only under an additional condition: other failures neither stop the following elements of a sequential bulk nor roll an atomic bulk back")
+	if len(stores) == 0 {
+		c.Fail("DOM/bulk-worker", key+":failure-recorded", pos(c, d.Decl), "the worker never records a failure (hasError.Store(true))")
+		return
+	}
+	ok := false
+	for _, st := range stores {
+		// innermost enclosing if: `err != nil`, and Store is a direct statement of its body
+		var inner *ast.IfStmt
+		ast.Inspect(st.env.d.Decl.Body, func(x ast.Node) bool {
+			if is, isIf := x.(*ast.IfStmt); isIf && is.Body.Pos() <= st.call.Pos() && st.call.End() <= is.Body.End() {
+				inner = is
+			}
+			return true
+		})
+		if inner != nil && isErrNilTest(st.env.info, inner.Cond) {
+			if be, isB := ast.Unparen(inner.Cond).(*ast.BinaryExpr); isB && be.Op == token.NEQ {
+				for _, s := range inner.Body.List {
+					if es, isE := s.(*ast.ExprStmt); isE && es.X == ast.Expr(st.call) {
+						ok = true
+					}
+				}
+			}
+		}
+	}
+	c.Check(ok, "DOM/bulk-worker", key+":failure-recorded", pos(c, stores[0].call), "hasError.Store(true) for every failed element (directly under `err != nil`)", "a failed element marks the bulk as failed only under an additional condition: other failures neither stop the following elements of a sequential bulk nor roll an atomic bulk back")
 }
 
 // ruleBatcherItemErrors: the batching driver reports a per-item failure as a failure.
@@ -311,37 +322,65 @@ func ruleBlockWorkerLoop(c *core.Ctx) {
 		c.Unknown("DOM/block-worker", "internal/storage.(AsyncBlockRunner).run", "", "not found")
 		return
 	}
-	info := d.Pkg.TypesInfo
 	key := declKey(d)
-	ok := false
-	ast.Inspect(d.Decl.Body, func(x ast.Node) bool {
-		r, isR := x.(*ast.RangeStmt)
-		if !isR || !strings.HasSuffix(types.ExprString(r.X), ".Data") {
-			return true
-		}
-		calls := callsTo(info, r.Body, named("processLedger"))
-		skip := false
-		ast.Inspect(r.Body, func(y ast.Node) bool {
-			if b, isB := y.(*ast.BranchStmt); isB && (b.Tok == token.CONTINUE || b.Tok == token.BREAK) {
-				skip = true
+	// the loop over a page of ledgers: in run itself or in a helper it hands the page to
+	state := 0 // +1 ok, -1 wrong, 0 not found
+	for _, env := range scopeEnvs(c, d) {
+		env := env
+		ast.Inspect(env.d.Decl.Body, func(x ast.Node) bool {
+			r, isR := x.(*ast.RangeStmt)
+			if !isR || !strings.HasSuffix(env.origin(r.X), ".Data") {
+				return true
 			}
-			return true
-		})
-		top := false
-		if len(calls) == 1 {
-			for _, st := range r.Body.List {
-				if st.Pos() <= calls[0].Pos() && calls[0].End() <= st.End() {
-					if is, isIf := st.(*ast.IfStmt); isIf && is.Init != nil && is.Init.Pos() <= calls[0].Pos() && calls[0].End() <= is.Init.End() {
-						top = true
-					}
-					if _, isE := st.(*ast.ExprStmt); isE {
-						top = true
+			calls := callsTo(env.info, r.Body, named("processLedger"))
+			if len(calls) == 0 {
+				return true
+			}
+			skip := false
+			ast.Inspect(r.Body, func(y ast.Node) bool {
+				if b, isB := y.(*ast.BranchStmt); isB && (b.Tok == token.CONTINUE || b.Tok == token.BREAK) {
+					skip = true
+				}
+				return true
+			})
+			top := false
+			if len(calls) == 1 {
+				for _, st := range r.Body.List {
+					if st.Pos() <= calls[0].Pos() && calls[0].End() <= st.End() {
+						if is, isIf := st.(*ast.IfStmt); isIf && is.Init != nil && is.Init.Pos() <= calls[0].Pos() && calls[0].End() <= is.Init.End() {
+							top = true
+						}
+						if _, isE := st.(*ast.ExprStmt); isE {
+							top = true
+						}
+						if _, isA := st.(*ast.AssignStmt); isA {
+							top = true
+						}
 					}
 				}
 			}
+			ok := len(calls) == 1 && !skip && top && r.Value != nil && len(calls[0].Args) == 2 && types.ExprString(calls[0].Args[1]) == types.ExprString(r.Value)
+			if ok {
+				if state == 0 {
+					state = 1
+				}
+			} else {
+				state = -1
+			}
+			return true
+		})
+	}
+	msg := "the block worker skips some of the ledgers its HASH_LOGS=ASYNC query selected (an extra continue/condition in the loop): their logs never get a block"
+	switch state {
+	case 1:
+		c.Pass("DOM/block-worker", key+":every-selected-ledger", pos(c, d.Decl), "processLedger for every ledger of every page, unconditionally")
+	case -1:
+		c.Fail("DOM/block-worker", key+":every-selected-ledger", pos(c, d.Decl), msg)
+	default:
+		if len(scopeCalls(fnScope(c, d, 2), named("processLedger"))) == 0 {
+			c.Fail("DOM/block-worker", key+":every-selected-ledger", pos(c, d.Decl), "the block worker no longer processes the ledgers it selects")
+		} else {
+			c.Unrecognised("DOM/block-worker", key+":every-selected-ledger", pos(c, d.Decl), "the loop over the page of selected ledgers is not in a shape the rule reads")
 		}
-		ok = len(calls) == 1 && !skip && top && r.Value != nil && len(calls[0].Args) == 2 && types.ExprString(calls[0].Args[1]) == types.ExprString(r.Value)
-		return true
-	})
-	c.Check(ok, "DOM/block-worker", key+":every-selected-ledger", pos(c, d.Decl), "processLedger for every ledger of every page, unconditionally", "the block worker skips some of the ledgers its HASH_LOGS=ASYNC query selected (an extra continue/condition in the loop): their logs never get a block")
+	}
 }
